@@ -8,6 +8,7 @@ import PsVerif.Model.NormCalc
 import PsVerif.Model.Proto
 import PsVerif.Model.Sspor
 import PsVerif.Model.Recon
+import PsVerif.Model.Sspoc
 open PsVerif PsVerif.Proto
 
 def showVerdicts (vs : List StepVerdict) : String :=
@@ -26,6 +27,14 @@ def showSsporObs (st : Sspor) (e : Option Err) : String :=
   let bm := match st.bm with | some (a, b) => s!"({a},{b})" | none => "None"
   let sq := match st.predictSquare with | some true => "sq" | some false => "rect" | none => "-"
   s!"{status}|{showOptNat st.nSensors}|{sel}|{rk}|{bm}|{sq}|{showOptNat st.basis.nModes}|{showOptNat st.nBasisModes}"
+
+def showSspocObs (st : Sspoc) (e : Option Err) : String :=
+  let status := match e with | none => "ok" | some e => "E:" ++ e.name
+  let ns := match st.nSensors with | none => "None" | some (.int z) => toString z | some .other => "x"
+  let kind := match st.predictKind with
+    | .notFitted => "notfitted" | .dummy => "dummy" | .raw => "raw" | .projected => "projected"
+  let cons := if decide st.Consistent then "1" else "0"
+  s!"{status}|{ns}|[{showNats st.sel}]|{kind}|{cons}"
 
 def showMat (M : RMat) : String :=
   let n := M.nrows
@@ -47,6 +56,25 @@ def handle : P String := do
         let (st', e) := acc.1.step op
         (st', showSsporObs st' e :: acc.2)) (st0, [])
       pure ("ok " ++ " ; ".intercalate outs.reverse)
+  | "sspoc" => do
+    let ns ← optPyCount; let thr ← optRat; let ops ← listOf sspocOp
+    let (_, outs) := ops.foldl (fun (acc : Sspoc × List String) op =>
+      let (st', e) := acc.1.step op
+      (st', showSspocObs st' e :: acc.2)) (Sspoc.init ns thr, [])
+    pure ("ok " ++ " ; ".intercalate outs.reverse)
+  | "agg" => do
+    let k ← tok; let row ← listOf rat
+    let a ← (match k with | "max" => pure Agg.max | "min" => pure Agg.min | "mean" => pure Agg.mean | "median" => pure Agg.median | _ => failure : P Agg)
+    pure s!"ok {showRat (aggRow a row)}"
+  | "topn" => do
+    let mag ← listOf rat; let n ← nat
+    pure s!"ok {showNats (topN mag n)}"
+  | "thresh" => do
+    let mag ← listOf rat; let τ ← rat
+    pure s!"ok {showNats (threshSel mag τ)}"
+  | "dthresh" => do
+    let mag ← listOf rat; let ss ← rat; let r ← nat; let c ← nat
+    pure s!"ok {showNats (defaultThreshSel mag ss r c)}"
   | "predict" => do
     let B ← mat; let sensors ← listOf nat; let Y ← mat
     match predictExact B sensors Y with
